@@ -552,10 +552,10 @@ pub fn strategy(cli: bool) -> impl Strategy<Value = Case> {
 
 pub fn run_check(ctx: &mut Ctx) {
     ctx.rule = "a valid generator program (scopes, macros, loops, conditionals, segments) + exactly one injected fault of one of 11 classes (undefined symbol/macro/segment, redefinition, illegal addressing form, immediate > 255, branch out of range, macro arity, malformed statement, unclosed block, missing import) at a generated position - semantic faults at live positions only, syntax faults anywhere; in a third of the cases the top-level statement holding the fault is moved to an imported file. oracle: in-process: >= 1 diagnostic and one of them at the injector's file/line(/column) with the class's message; CLI (`mos build -e Short`, listing+symbols on, target pre-populated with sentinels): exit status 1, located diagnostic on stdout, target directory byte- and mtime-identical. non-trivial = fault not on the first two lines or inside a scope/macro/loop/if".into();
-    let n = ctx.tier.pick(12_000, 300_000);
+    let n = ctx.tier.pick(30_000, 600_000);
     ctx.campaign_parallel("in-process", n, 16, || strategy(false), prop, to_json);
     if have_mos() {
-        let n2 = ctx.tier.pick(1600, 40_000);
+        let n2 = ctx.tier.pick(3200, 60_000);
         ctx.campaign_parallel("cli", n2, 16, || strategy(true), prop, to_json);
     } else {
         ctx.health(false, "mos binary not built (MOS_BIN)");
